@@ -568,6 +568,7 @@ class FacadePushUpdater(
             self, interface.PushUpdater, DEFAULT_PRIORITIES
         )
         interface.PushUpdater.__init__(self)
+        self._forward_updates: bool = False
 
     @property  # type: ignore
     @shield.guard
@@ -581,6 +582,7 @@ class FacadePushUpdater(
 
         If an error occurs, start must be called again.
         """
+        self._forward_updates = True
         for instance in self.instances:
             instance.listener = self
             instance.start(initial_delay)
@@ -588,18 +590,20 @@ class FacadePushUpdater(
     @shield.guard
     def stop(self) -> None:
         """No longer forward updates to listener."""
+        # Updates already scheduled on the event loop must not reach the listener
+        self._forward_updates = False
         for instance in self.instances:
             instance.listener = None
             instance.stop()
 
     def playstatus_update(self, updater, playstatus: interface.Playing) -> None:
         """Inform about changes to what is currently playing."""
-        if updater == self.main_instance:
+        if self._forward_updates and updater == self.main_instance:
             self.listener.playstatus_update(updater, playstatus)
 
     def playstatus_error(self, updater, exception: Exception) -> None:
         """Inform about an error when updating play status."""
-        if updater == self.main_instance:
+        if self._forward_updates and updater == self.main_instance:
             self.listener.playstatus_error(updater, exception)
 
 
